@@ -112,6 +112,8 @@ def run_contracts(ctx, contracts, contracts_module):
         if getattr(ctx, 'only', None):
             continue
         have = set(base_name(o['name']) for o in ctx.obligations if o['function'] == fn)
+        keys = [c.key_name for c in contracts if '%s.%s' % (c.module, c.qualname) == fn]
+        locked = set(n for n in locked if _owned(n, keys))     # other variants run under other properties
         missing = locked - have
         unsupported = any(o['function'] == fn and o['name'].endswith(':symbolic-execution')
                           for o in ctx.obligations)
@@ -122,7 +124,7 @@ def run_contracts(ctx, contracts, contracts_module):
                            detail='%d obligations recorded in obligations.lock were not generated'
                                   % len(missing))
     if os.environ.get('VERIF_RELOCK') == '1':
-        write_lock([ctx])
+        write_lock([ctx], [c.key_name for c in contracts])
     ctx.family('pyvc.cpython_crosscheck', 'B', instances=len(contracts), evaluations=total_concrete,
                nontrivial=total_concrete, exhaustive=False,
                bound='executable contracts evaluated on the real functions over enumerated small inputs',
@@ -130,8 +132,13 @@ def run_contracts(ctx, contracts, contracts_module):
     return time.time() - t0
 
 
-def write_lock(ctxs):
-    """ctxs: list of Ctx after full runs on the baseline tree."""
+def _owned(name, keys):
+    return any(name.startswith(k + ':') or name.startswith(k + '{') for k in keys)
+
+
+def write_lock(ctxs, keys=None):
+    """ctxs: list of Ctx after full runs on the baseline tree; keys: key names of the contracts that
+    ran (entries of other contracts on the same function are kept)."""
     lock = {}
     for ctx in ctxs:
         for o in ctx.obligations:
@@ -141,6 +148,10 @@ def write_lock(ctxs):
                 if bn not in e['proved']:
                     e['proved'].append(bn)
     old = load_lock()
-    old.update(lock)
+    for fn, e in lock.items():
+        if keys is not None and fn in old:
+            kept = [n for n in old[fn].get('proved', []) if not _owned(n, keys) and n not in e['proved']]
+            e['proved'] = kept + e['proved']
+        old[fn] = e
     with open(LOCK, 'w') as f:
         json.dump(old, f, indent=1, sort_keys=True)
